@@ -10,7 +10,12 @@ psi^-4 gamma_ij under the product rule and the kinematic relation.
 Extensions (Props/C06b, C06c, C06d): Layer B derivations of dtAdown3_bssnok = d_t(psi^-4 (K_ij - gamma_ij K/3)) from the ADM
 evolution equation of K_ij, and of dts_Gamma_bssnok = d_t(-d_j gamma~^ij) (commuting derivatives + the momentum constraint in
 conformal form, itself derived from Momentumup3 = 0); Einstein's equations => Hamiltonian = 0 and Momentumup3 = 0 modulo the
-(uncontracted) Gauss and Codazzi equations, which stay hypotheses.
+(uncontracted) Gauss and Codazzi equations (hypotheses there).
+Extension Props/C06e (+ Lemmas/C06Ricci{Second,Shift,Eq}, C06AdmCode, Spec/RicciEquation; non-vacuity Props/C06eEx): the ADM evolution
+equation of K_ij is PROVEN from Einstein's equations on 2-jets (Ricci equation R_itjt = ... + alpha(d_t K_ij - L_beta K_ij) + alpha D_iD_j alpha
++ alpha^2 K_ik K^k_j as an off-shell identity for the textbook Riemann tensor of the assembled metric, then G + Lambda g = kappa T), the
+Gauss-Codazzi hypotheses of C06c are discharged from Props/C04b, and the Layer-B theorems are restated with the ADM-evolution /
+Hamiltonian / momentum hypotheses replaced by Einstein's equations for the assembled jet.
 
 Search part (independent of model and code): sympy-generated exact solutions —
 random smooth 3+1 fields (time-dependent lapse > 0, shift, non-diagonal metric) with
@@ -65,19 +70,56 @@ EXTRA = [
      + ["AurelVerif.C06Deriv." + t for t in (
          "Deriv.const_mul", "Deriv.two_thirds", "dt_conformal_inverse_metric", "dt_GammaVec_jets", "Gamma_contract_A",
          "Gamma_trace", "mom_conformal", "christoffel_trace", "half_trace_logdet", "Gammat_trace_zero")]),
+    # extension round 2: the ADM evolution equation and the constraints FROM Einstein's equations (Ricci equation on 2-jets + C04b)
+    ("AurelVerif.Props.C06e",
+     ["AurelVerif.C06." + t for t in (
+         "dtKd_is_leibniz", "dtK_is_derivative", "ricci_equation_offshell", "adm_evolution_iff", "adm_evolution_of_ricci",
+         "dtKdown_of_einstein", "dtKdown_of_einstein_vacuum", "gaussCodazzi_textbook",
+         "Hamiltonian_zero_of_einstein_textbook", "Hamiltonian_zero_of_einstein_textbook_vacuum",
+         "Momentumup3_zero_of_einstein_textbook", "Momentumup3_zero_of_einstein_textbook_vacuum",
+         "dtKtrace_is_dt_trace_of_einstein", "dtAdown3_bssnok_is_dt_conformal_of_einstein",
+         "dtAdown3_bssnok_vacuum_is_dt_conformal_of_einstein", "momc_of_einstein", "dts_Gamma_bssnok_is_dt_of_einstein",
+         "dts_Gamma_bssnok_vacuum_is_dt_of_einstein", "isDtK_of_deriv", "dtKdown3_is_dt_of_einstein",
+         "dtKtrace_is_dt_of_einstein", "dtAdown3_bssnok_is_dt_of_einstein")]
+     + ["AurelVerif.Spec.Curvature.JetC." + t for t in (
+         "dtgam_symm", "ricci_second2", "ricci_second", "shift_part2", "shift_part", "quad_s0_s0", "quad_00_ss", "bbA_swap",
+         "ricciEqRHS_expand", "ricci_gup3p1", "ricci_identity", "dttgamOf_dtKd", "dtK_unique", "adm_iff", "adm_of_ricci")]
+     + ["AurelVerif.Spec.Curvature.Jet." + t for t in (
+         "quad_split", "c1_s00", "c1_000", "c1_ss0_Db", "KK_form")]
+     + ["AurelVerif.C06L." + t for t in (
+         "lieK_code", "DDa_code", "trace_gup4", "gdown4_spatial", "ricci4_spatial_of_einstein", "ricci4_zero_of_vacuum",
+         "dtKdown_geometric", "dtKdown_of_einstein", "dtKdown_of_einstein_vacuum", "riem4_code_sym", "gaussCodazzi_textbook",
+         "AdmCached.normalOK", "symU_of", "symK_of", "hUG_of", "hGU_of", "MatterCached.rho", "MatterCached.strace",
+         "MatterCached.sdown", "einsteinEq_of_onShell", "einstein4_zero_of_onShellVac",
+         "ricciS_cached", "isDtK_of_deriv", "symT_timeJet2Of")]),
+    ("AurelVerif.Props.C06eEx",
+     ["AurelVerif.C06." + t for t in (
+         "exF_hyp", "exF_onshell", "exF_adm", "exF_matter", "exF_ric3", "exF_isDtK", "exFdtK_22", "exKas_gup4",
+         "exKas_ricci_full", "exKF_hyp", "exKF_onshell", "exKF_adm", "exKF_isDtK", "exKFdtK_00", "exDt_deriv", "exM_deriv",
+         "exM_static", "exM_hyp", "exM_ricci", "exM_onshell", "exM_onshellVac", "exM_adm", "exM_matter")]
+     + ["AurelVerif.Spec.Curvature." + t for t in (
+         "tsplit_const", "dmetric3p1_zero", "ddmetric3p1_zero", "riemannDown_zero", "JetC.Static.dtgam", "JetC.Static.ddtgam",
+         "JetC.Static.d4", "JetC.Static.dd4gam", "JetC.Static.dg4", "JetC.Static.ddg4", "JetC.Static.riem4",
+         "JetC.Static.ricci")]),
 ]
 NEEDED = ["Hamiltonian", "Momentumup3", "Momentumx", "Momentumy", "Momentumz", "dtKtrace", "dtphi_bssnok", "dtgammaup3",
           "dtgammadown3_bssnok", "dtAdown3_bssnok", "dts_Gamma_bssnok", "rho_n", "fluxup3_n", "Stressup3_n",
           "Stressdown3_n", "Stresstrace_n", "Lie_beta_scalar", "Lie_beta_s_uu", "Lie_beta_w_s_dd", "s_covd_uu", "trace3",
           "tracefree3", "gammaup3", "gammadet", "Ktrace", "Kup3", "Adown3", "gammaup4", "nup4",
-          "Aup3", "s_Gamma_bssnok", "s_Gamma_udd3_bssnok", "s_Gamma_udd3", "s_RicciS", "s_Ricci_down3", "s_Riemann_down3", "gup4", "gdown4", "ndown4", "betadown3", "betamag", "gtt"]
+          "Aup3", "s_Gamma_bssnok", "s_Gamma_udd3_bssnok", "s_Gamma_udd3", "s_RicciS", "s_Ricci_down3", "s_Riemann_down3", "gup4", "gdown4", "ndown4", "betadown3", "betamag", "gtt", "DDalpha"]
 LEAN_FILES = ["AurelVerif/Props/C06.lean", "AurelVerif/Lemmas/C06Deriv.lean", "AurelVerif/Spec/ADM.lean",
               "AurelVerif/Spec/Covd.lean", "AurelVerif/Props/C09.lean", "AurelVerif/Props/C08.lean",
               "AurelVerif/Gen/CoreKeys.lean", "AurelVerif/Gen/CoreCurv.lean", "AurelVerif/Gen/CoreHelpers.lean",
               "AurelVerif/Props/C06b.lean", "AurelVerif/Props/C06c.lean", "AurelVerif/Props/C06d.lean",
               "AurelVerif/Lemmas/C06DtA.lean", "AurelVerif/Lemmas/C06Gauss.lean", "AurelVerif/Lemmas/C06Mom.lean",
               "AurelVerif/Lemmas/C06DtGamma.lean", "AurelVerif/Spec/GaussCodazzi.lean", "AurelVerif/Spec/Curvature.lean",
-              "AurelVerif/Lemmas/C04Gup.lean", "AurelVerif/Lemmas/C04Blocks.lean", "AurelVerif/Lemmas/C05Covd.lean"]
+              "AurelVerif/Lemmas/C04Gup.lean", "AurelVerif/Lemmas/C04Blocks.lean", "AurelVerif/Lemmas/C05Covd.lean",
+              "AurelVerif/Props/C06e.lean", "AurelVerif/Props/C06eEx.lean", "AurelVerif/Spec/RicciEquation.lean",
+              "AurelVerif/Lemmas/C06RicciSecond.lean", "AurelVerif/Lemmas/C06RicciShift.lean", "AurelVerif/Lemmas/C06RicciEq.lean",
+              "AurelVerif/Lemmas/C06AdmCode.lean", "AurelVerif/Lemmas/C06Static.lean", "AurelVerif/Spec/Riemann4Jet.lean",
+              "AurelVerif/Props/C04b.lean", "AurelVerif/Lemmas/C04Jet2.lean", "AurelVerif/Lemmas/C04Gauss.lean",
+              "AurelVerif/Lemmas/C04Codazzi.lean", "AurelVerif/Lemmas/C04Mainardi.lean", "AurelVerif/Lemmas/C04RiemSym.lean",
+              "AurelVerif/Lemmas/C04CurvCode.lean", "AurelVerif/Lemmas/C04Jet2Deriv.lean"]
 
 KAPPA = 8 * np.pi
 PRIMS = ["al", "b0", "b1", "b2", "g00", "g01", "g02", "g11", "g12", "g22"]
@@ -580,18 +622,26 @@ def run(ctx):
     ctx.trusted += corecheck.TRUSTED
     ctx.trusted += ["sympy differentiation + lambdify and numpy.linalg (search oracle only)"]
     ctx.assumptions += [
-        "NOT covered by any theorem (differential geometry / analysis, trusted): that the Riemann tensor of the 4-metric satisfies the "
-        "GAUSS equation R4_ijkl = R3_ijkl + K_ik K_jl - K_il K_jk and the CODAZZI equation R4_ijks n^s = D_j K_ik - D_i K_jk and has the pair "
-        "antisymmetries (hypotheses of the theorems 'Einstein's equations => Hamiltonian = 0, Momentumup3 = 0' of Props/C06c; the contraction "
-        "with gamma^{mu nu} = g^{mu nu} + n^mu n^nu, i.e. the algebraic half, IS proven, as are the facts about the code's own n^mu, g_mu_nu, "
-        "g^mu_nu, gamma^mu_nu); that the 3-Ricci scalar the code computes is the double contraction of the same R3_ijkl; that R~_ij + R^phi_ij is "
-        "the Ricci tensor of gamma_ij; the ADM evolution equation of K_ij "
-        "itself (a hypothesis of the Layer-B theorems for dtKtrace and dtAdown3_bssnok); the convergence order of the composed "
-        "finite-difference expressions. These are watched by the sympy oracle on exact solutions at two resolutions (a test, labelled as such).",
+        "NOT covered by any theorem (trusted): that R~_ij + R^phi_ij is the Ricci tensor of gamma_ij (Alcubierre 2.8.16; hypothesis hRic of the "
+        "dtAdown3_bssnok theorems); the convergence order of the composed finite-difference expressions; round-off. These are watched by the "
+        "sympy oracle on exact solutions at two resolutions (a test, labelled as such). [Since the second extension round the GAUSS and CODAZZI "
+        "equations, the pair antisymmetries, the ADM evolution equation of K_ij, the Hamiltonian and the momentum constraint are no longer "
+        "assumptions: Props/C06e derives them, for exact differentiation (jets as symbols: Layer B), from Einstein's equations for the textbook "
+        "Riemann tensor (Landau-Lifshitz 92.1) of the 4-metric assembled from (alpha, beta, gamma), whose time derivatives are K_ij (kinematic "
+        "relation), dtalpha, dtbetaup3 and universally quantified second time derivatives.]",
+        "Hypotheses that REMAIN in the '..._of_einstein' / '..._textbook' theorems of Props/C06e, all stated there: CurvHyp (assembled metric, "
+        "det gamma != 0, gamma_ij and K_ij symmetric, cached connection torsion-free and metric compatible, gammaup3 the inverse, alpha != 0, "
+        "2 != 0, commuting difference operators, s_Riemann_down3 = the textbook 3-Riemann tensor, which is property C05's theorem); the cached "
+        "entries gammaup3, gup4, nup4, gammaup4, DDalpha, Ktrace, Kup3, rho_n, Stresstrace_n, Stressup3_n, Stressdown3_n, fluxup3_n, s_RicciS "
+        "produced by the code's own formulas and s_Ricci_down3 = contraction of s_Riemann_down3; OnShell (G_ab + Lambda g_ab = kappa T_ab for the "
+        "assembled jet with the supplied Tdown4, Lambda, kappa; vacuum branches: G_ab = 0); for the momentum constraint D_c gamma^ab = 0 and the "
+        "product rule for e.D; for the BSSNOK keys the conformal-weight relations, d(psi^-4) = -4 psi^-4 d(phi), the phi-equation and the product "
+        "rules already listed for Props/C06b, C06d (and commuting d_t, d_i for dts_Gamma_bssnok).",
         "Layer B theorems for dtAdown3_bssnok (= d_t(psi^-4 (K_ij - gamma_ij K/3)), NO constraint used) and dts_Gamma_bssnok (= d_t(-d_j gamma~^ij)) "
-        "take as hypotheses: additivity + product rule for d_t and d_i, for dts_Gamma_bssnok also that d_t commutes with d_i and d_i with d_j, the "
+        "of Props/C06b, C06d take as hypotheses: additivity + product rule for d_t and d_i, for dts_Gamma_bssnok also that d_t commutes with d_i and d_i with d_j, the "
         "kinematic relation, the ADM evolution equation of K_ij (with Lambda), d(psi^-4) = -4 psi^-4 d(phi), gamma^ij the two-sided inverse, "
-        "D_c gamma^ab = 0, and for dts_Gamma_bssnok the momentum constraint (Momentumup3 = 0, brought to the conformal form Alcubierre 2.8.24 by a theorem). "
+        "D_c gamma^ab = 0, and for dts_Gamma_bssnok the momentum constraint (Momentumup3 = 0, brought to the conformal form Alcubierre 2.8.24 by a theorem); "
+        "Props/C06e replaces the ADM-evolution and constraint hypotheses by Einstein's equations. "
         "The finite-difference operators satisfy the product rule and commute with d_t only up to truncation error: continuum statements.",
         "Layer B theorems (dtgammaup3, dtphi_bssnok, dtgammadown3_bssnok are d/dt of gamma^-1, ln(det gamma)/12, psi^-4 gamma_ij) take the "
         "product rule for d_t and d_i and the kinematic relation d_t gamma_ij = -2 alpha K_ij + L_beta gamma_ij as hypotheses; the logarithm and "
@@ -652,20 +702,37 @@ MANIFEST = {
             "the Gauss and Codazzi equations, Hamiltonian = 2 (G + Lambda g - kappa T)_mu_nu n^mu n^nu and Momentumup3^i = -gamma^{i mu} (G + Lambda g - "
             "kappa T)_mu_nu n^nu with G the Einstein tensor of R4, hence Einstein's equations => both constraints vanish (vacuum branches: G = 0); "
             "the projector / unit-normal facts used (gamma^{mu nu} = g^{mu nu} + n^mu n^nu, n.n = -1, n_i = 0) are proven for the code's own gup4, "
-            "gdown4, nup4, gammaup4; D_j(K^ij - gamma^ij K) = gamma^ia gamma^jb (D_j K_ab - D_a K_jb) from D gamma^ab = 0 and the product rule.",
-    "note": "PARTIAL scope, stated: 'the constraints converge to zero on every exact solution' is proven only MODULO the Gauss and Codazzi "
-            "equations (hypotheses: that the 4-Riemann tensor of the metric satisfies them is not proven), modulo 's_RicciS is the double "
-            "contraction of the 3-Riemann tensor' and, for the momentum constraint, metric compatibility + product rule; the dt-keys are proven to be "
-            "the true t-derivatives only in the continuum sense (product rule, commuting derivatives: Layer B) with the kinematic relation, the ADM "
-            "evolution equation of K_ij, R_ij = R~_ij + R^phi_ij and (dtKtrace: Hamiltonian, dts_Gamma_bssnok: momentum) constraints "
-            "as hypotheses; no theorem covers the ADM equations themselves nor convergence orders; all of this is additionally TESTED by the sympy "
+            "gdown4, nup4, gammaup4; D_j(K^ij - gamma^ij K) = gamma^ia gamma^jb (D_j K_ab - D_a K_jb) from D gamma^ab = 0 and the product rule. "
+            "Second extension (Props/C06e, Layer B on 2-jets = exact differentiation): the RICCI EQUATION as an off-shell identity for the textbook "
+            "Riemann tensor (Landau-Lifshitz 92.1) of the 4-metric assembled from (alpha, beta, gamma): R_itjt = beta^k R_jkit + beta^k R_ikjt - "
+            "beta^k beta^l R_ikjl + alpha (d_t K_ij - L_beta K_ij) + alpha D_iD_j alpha + alpha^2 K_ik K^k_j, where d_t K_ij is the quantity determined "
+            "by d_t d_t gamma_ij through the Leibniz t-derivative of the kinematic relation; hence the ADM evolution equation d_t K_ij = -D_iD_j alpha + "
+            "alpha (R_ij - 2 K_ik K^k_j + K K_ij - 4R_ij) + L_beta K_ij holds IF AND ONLY IF 4R_ij is the spatial Ricci block of the assembled metric, "
+            "and with G + Lambda g = kappa T it is exactly Spec/ADM.dtKdown with the code's S_ij, S, rho, Lambda, kappa, DDalpha (both branches). "
+            "The Gauss / Codazzi / antisymmetry hypotheses of C06c are discharged for that textbook tensor (C04b), so Einstein's equations => "
+            "Hamiltonian = 0 and Momentumup3 = 0 without any Gauss-Codazzi assumption; dtKtrace = d_t(gamma^ij K_ij), dtAdown3_bssnok = d_t A~_ij, "
+            "dts_Gamma_bssnok = d_t Gamma~^i are restated with the ADM-evolution, Hamiltonian and momentum hypotheses REPLACED by Einstein's equations "
+            "for the assembled jet (jet form and, for d_t a derivation commuting with d_i, operator form: then d_t d_t gamma_ij IS the Leibniz derivative).",
+    "note": "PARTIAL scope, stated: everything beyond the term-by-term spec match is LAYER B (consistency): jets are symbols / operators obey the "
+            "product rule and commute, i.e. exact differentiation; the finite-difference operators satisfy this only up to truncation error, and NO "
+            "theorem covers the convergence order of the composed expressions nor round-off. Within Layer B, 'the constraints vanish on every exact "
+            "solution' and 'dtKtrace, dtAdown3_bssnok, dts_Gamma_bssnok are the true t-derivatives on shell' are now proven FROM EINSTEIN'S EQUATIONS "
+            "for the textbook Riemann tensor of the assembled 4-metric (Props/C06e): the Gauss-Codazzi equations (via C04b), the ADM evolution "
+            "equation of K_ij and both constraints are no longer hypotheses. Hypotheses that remain, all stated: CurvHyp (symmetric gamma_ij, K_ij, "
+            "metric-compatible torsion-free cached connection, gammaup3 = inverse, alpha != 0, commuting difference operators, s_Riemann_down3 = "
+            "textbook 3-Riemann = C05's theorem), cached entries produced by the code's formulas, s_Ricci_down3 = contraction of s_Riemann_down3, "
+            "for the momentum constraint D_c gamma^ab = 0 + product rule, the kinematic relation (definition of K_ij), and for dtAdown3_bssnok "
+            "'R~_ij + R^phi_ij is the Ricci tensor of gamma' (Alcubierre 2.8.16) which is STILL NOT PROVEN. The older theorems (C06, C06b-d) with "
+            "the ADM equation / constraints / Gauss-Codazzi as hypotheses are kept. All of this is additionally TESTED by the sympy "
             "oracle (random smooth 4-metrics in a random gauge with T := (G + Lambda g)/kappa, and a moving Kerr-Schild vacuum solution; constraints "
             "-> 0 and each dt-key -> exact d/dt at two resolutions, fd_order 4 and 6). Non-vacuity: concrete rational instances next to each theorem "
             "(FLRW point satisfying ALL of Einstein's equations with its Gauss-Codazzi 4-Riemann tensor; anisotropic Bianchi-I point for dtAdown3_bssnok; "
-            "conformally flat point with a gradient of phi for Alcubierre 2.8.24); the operator-form hypotheses (Deriv, commutation) are satisfiable "
+            "conformally flat point with a gradient of phi for Alcubierre 2.8.24; for Props/C06e: the on-shell point of C04b with lapse 2, shift, sheared "
+            "metric, matter and Lambda (d_t K_zz = -3/2), the Kasner point with all 16 Ricci components zero (d_t K_xx = -2/9 exactly), a generic 2-jet "
+            "with non-zero connection); the operator-form hypotheses (Deriv, commutation) are satisfiable "
             "over Q only by the zero operator (static point shown), over a differential field by d/dt. Trusted: Lean kernel + "
             "propext/Classical.choice/Quot.sound; the symbolic-execution translator (validated each run); numpy semantics; exact arithmetic instead of "
-            "IEEE-754; the book equations as transcribed in Spec/ADM.lean, Spec/GaussCodazzi.lean (equation numbers from memory). The oracle found two "
+            "IEEE-754; the book equations as transcribed in Spec/ADM.lean, Spec/GaussCodazzi.lean, Spec/RicciEquation.lean, Spec/Riemann4Jet.lean (equation numbers from memory). The oracle found two "
             "genuine defects (sign of the lapse term of dtgammaup3; dtphi_bssnok multiplied the shift divergence by phi), fixed in /repo 75ab97b and "
             "a03aaf1; their minimal witnesses are part of every run.",
 }
